@@ -90,6 +90,138 @@ def rule_x1(F):
     return r
 
 
+def _run_tests_mir(rb):
+    """Counting and aggregation of run_tests decided on MIR (independent of if / match / early-return spelling).
+    Returns (counting_ok, aggregate_ok, number of failure counters)."""
+    b = rb
+    defs = mir.Defs(b)
+    dom = mir.dominators(b)
+    loops = mir.natural_loops(b)
+    runs = [bi for bi, t in mir.calls(b) if hir.last(mir.callee(t) or "") == "run" and "TestCase" in (mir.callee(t) or "")]
+    if len(runs) != 1:
+        return False, False, 0
+    R = runs[0]
+    mine = [(h, nodes) for h, nodes in loops if R in nodes]
+    if not mine:
+        return False, False, 0
+    h, nodes = min(mine, key=lambda x: len(x[1]))
+    # the branch on the result of this run
+    best = None
+    for si in sorted(nodes):
+        tt = b.blocks[si]["term"]
+        if tt["k"] != "switch" or R not in dom[si] or not mir.is_place_op(tt["o"]):
+            continue
+        l = tt["o"][1][0]
+        if R not in mir.back_calls(b, defs, l):
+            continue
+        ds = defs.whole_defs(l)
+        ok_t, fail_t = None, None
+        if len(ds) == 1 and ds[0][2] == "assign" and ds[0][3]["rv"]["k"] == "discr":
+            ok_t = [x for v, x in tt["targets"] if v == 0]
+            fail_t = [x for v, x in tt["targets"] if v != 0] + ([tt["otherwise"]] if not (b.blocks[tt["otherwise"]]["term"]["k"] == "unreachable") else [])
+        elif len(ds) == 1 and ds[0][2] == "call":
+            n = hir.last(mir.callee_def(ds[0][3]) or "")
+            t_true = [tt["otherwise"]] + [x for v, x in tt["targets"] if v != 0]
+            t_false = [x for v, x in tt["targets"] if v == 0]
+            if n in ("eq", "is_ok"):
+                ok_t, fail_t = t_true, t_false
+            elif n in ("ne", "is_err"):
+                ok_t, fail_t = t_false, t_true
+        if ok_t is not None and fail_t:
+            best = (si, ok_t, fail_t)
+            break
+    if best is None:
+        return False, False, 0
+    si, ok_t, fail_t = best
+
+    def region(starts):
+        out = set()
+        for x in starts:
+            out |= mir.reachable_from(b, x, stop={h, si}) - {h, si}
+        return out & nodes
+    ok_r, fail_r = region(ok_t), region(fail_t)
+    # counters: L = L + 1
+    incs = {}
+    for bi in nodes:
+        for st in b.blocks[bi]["stmts"]:
+            if st["k"] != "assign" or len(st["p"]) != 1:
+                continue
+            rv = st["rv"]
+            src = None
+            if rv["k"] in ("bin", "checked") and rv.get("op") in ("Add", "AddWithOverflow"):
+                src = rv
+            elif rv["k"] == "use" and mir.is_place_op(rv["o"]) and len(rv["o"][1]) == 2:
+                for d in defs.whole_defs(rv["o"][1][0]):
+                    if d[2] == "assign" and d[3]["rv"]["k"] in ("bin", "checked") and d[3]["rv"].get("op") in ("Add", "AddWithOverflow"):
+                        src = d[3]["rv"]
+            if src is None:
+                continue
+            consts = [mir.op_const(o) for o in (src["a"], src["b"])]
+            if not any(c is not None and c.get("v") == 1 for c in consts):
+                continue
+            opl = [o[1][0] for o in (src["a"], src["b"]) if mir.is_place_op(o)]
+            if opl and opl[0] == st["p"][0] and rv["k"] == "use":
+                incs.setdefault(st["p"][0], set()).add(bi)
+            elif opl and rv["k"] != "use" and opl[0] == st["p"][0]:
+                incs.setdefault(st["p"][0], set()).add(bi)
+    fail_counters = {l for l, bs in incs.items() if bs and bs <= fail_r and not (bs & ok_r)}
+    counting_ok = bool(fail_counters)
+    # aggregate
+    oks = [bi for bi, blk in enumerate(b.blocks) for st in blk["stmts"] if st["k"] == "assign" and st["p"] == [0] and st["rv"]["k"] == "agg" and st["rv"].get("variant") == "Ok"]
+    errs = [bi for bi, blk in enumerate(b.blocks) for st in blk["stmts"] if st["k"] == "assign" and st["p"] == [0] and st["rv"]["k"] == "agg" and st["rv"].get("variant") == "Err"]
+    agg_ok = False
+    for l in fail_counters:
+        for ti, tblk in enumerate(b.blocks):
+            tt = tblk["term"]
+            if ti in nodes or tt["k"] != "switch" or not mir.is_place_op(tt["o"]):
+                continue
+            sl = tt["o"][1][0]
+            t_true = [tt["otherwise"]] + [x for v, x in tt["targets"] if v != 0]
+            t_false = [x for v, x in tt["targets"] if v == 0]
+            zero_s, nonzero_s = None, None
+            if sl == l:
+                zero_s, nonzero_s = t_false, t_true
+            else:
+                for d in defs.whole_defs(sl):
+                    if d[2] == "assign" and d[3]["rv"]["k"] == "bin":
+                        rv = d[3]["rv"]
+                        def same(o):
+                            if not mir.is_place_op(o):
+                                return False
+                            x = o[1][0]
+                            for _ in range(4):
+                                if x == l:
+                                    return True
+                                dd = defs.whole_defs(x)
+                                if len(dd) == 1 and dd[0][2] == "assign" and dd[0][3]["rv"]["k"] == "use" and mir.is_place_op(dd[0][3]["rv"]["o"]) and len(dd[0][3]["rv"]["o"][1]) == 1:
+                                    x = dd[0][3]["rv"]["o"][1][0]
+                                else:
+                                    break
+                            return x == l
+                        a_is = same(rv["a"])
+                        b_is = same(rv["b"])
+                        za = (mir.op_const(rv["a"]) or {}).get("v") == 0
+                        zb = (mir.op_const(rv["b"]) or {}).get("v") == 0
+                        op = rv.get("op")
+                        if a_is and zb:
+                            pass
+                        elif b_is and za:
+                            op = {"Lt": "Gt", "Gt": "Lt", "Le": "Ge", "Ge": "Le"}.get(op, op)
+                        else:
+                            continue
+                        if op in ("Eq", "Le"):
+                            zero_s, nonzero_s = t_true, t_false
+                        elif op in ("Ne", "Gt"):
+                            zero_s, nonzero_s = t_false, t_true
+            if zero_s is None:
+                continue
+            zr = set().union(*[mir.reachable_from(b, x) for x in zero_s]) if zero_s else set()
+            nr = set().union(*[mir.reachable_from(b, x) for x in nonzero_s]) if nonzero_s else set()
+            if oks and errs and all(o in zr and o not in nr for o in oks) and all(e in nr and e not in zr for e in errs):
+                agg_ok = True
+    return counting_ok, agg_ok, len(fail_counters)
+
+
 def rule_x2(F):
     r = RuleResult("C19.X2", "TestCase::run: Accept->Ok, Reject->Err; run_tests: Ok iff no failure; each test run once, unconditionally", floor=4)
     b = None
@@ -200,6 +332,13 @@ def rule_x2(F):
                 return (rhs.get("k") == "mcall" and rhs["m"] == "and" and hir.res_local(hir.peel_refs(hir.strip(rhs["recv"]))) == acc
                         and rhs["args"] and is_run_result(rhs["args"][0]))
             ok = bool(assigns) and len(in_loop) == len(assigns) and all(folds(a_) for a_ in assigns)
+    if (not ok or not cnt_ok) and rb.mir:
+        # the same two facts read off the MIR (whatever the spelling: match on the result, early return, ..)
+        c_ok, a_ok, n_cnt = _run_tests_mir(rb)
+        cnt_ok = cnt_ok or c_ok
+        ok = ok or a_ok
+        if n_cnt and not fail_counters:
+            fail_counters = set(range(n_cnt))
     r.inst("aggregate result", {"ok": ok, "failure_counters": len(fail_counters)})
     if not ok:
         r.bad(rb.path, "aggregate", relfile(rb.file), rb.line, "run_tests must return Ok exactly when failures == 0")
@@ -301,8 +440,18 @@ def rule_x3(F):
     if not sort_i:
         r.bad(gb.path, "sorted", relfile(gb.file), gb.line, "the discovered test names are not sorted: the order of test runs would depend on HashMap iteration")
     # discovery on the last segment, by prefix
-    cb = F.body("codegen::testing::get_tests::{closure#0}")
-    cms = [c["m"] for c in hir.nodes((cb.hir["value"] if cb else {}), "mcall")]
+    cms = []
+    for p_ in F.paths():
+        if p_.startswith("codegen::testing::get_tests::{closure"):
+            cb = F.body(p_)
+            if cb is None or not cb.hir:
+                continue
+            cms += [c["m"] for c in hir.nodes(cb.hir["value"], "mcall")]
+            # ... or the predicate is a helper function the closure calls
+            for c in hir.nodes(cb.hir["value"], "call"):
+                hb = F.body(hir.call_def(c) or "")
+                if hb is not None and hb.hir and hb.file == gb.file:
+                    cms += [x["m"] for x in hir.nodes(hb.hir["value"], "mcall")]
     r.inst("discovery predicate", {"methods": cms})
     if "starts_with" not in cms or "rsplit_once" not in cms:
         r.bad(gb.path, "predicate", relfile(gb.file), gb.line, "tests must be recognised by the prefix of the last path segment (found %s)" % cms)
@@ -334,56 +483,52 @@ def rule_x4(F):
     return r
 
 
-def rule_x5(F):
-    """Which function a test case (or `roto run`) calls: the exported symbols are keyed by their full path `pkg.<path>`, test
-    discovery strips that one prefix and hands the rest to Module::get_function, which must put exactly that prefix back - on every
-    path.  (If a name that already starts with `pkg.` is looked up as it is, the tests of a sub-module named `pkg` resolve to the
-    root module's tests of the same name: they are reported under the sub-module's name without ever running.)"""
-    r = RuleResult("C19.X5", "get_function looks every name up under the package prefix that test discovery stripped (the name -> symbol mapping is injective)", floor=1)
-    ps = [p for p in F.paths() if p.endswith("::get_function") and p.startswith("codegen::Module")]
-    if not ps:
-        r.missing("codegen::Module::get_function")
-        return r
-    b = F.body(ps[0])
-    defs = mir.Defs(b)
-    gets = [(bi, t) for bi, t in mir.calls(b) if (mir.callee_def(t) or "").endswith("HashMap::<K, V, S, A>::get") and t["args"] and mir.is_place_op(t["args"][0])
-            and "functions" in mir.origin_key(b, defs, t["args"][0][1])]
-    if not gets:
-        r.missing("the lookup in `functions` in Module::get_function")
-        return r
-    fmts = {}
+def _format_prefixes(F, b, defs, depth=0):
+    """block -> leading literal of what is formatted there: std::fmt::format calls of this body, and calls of crate helpers whose own
+    result is such a formatted string (`Self::qualified(name)`)."""
+    out = {}
     for bi, t in mir.calls(b):
-        if hir.last(mir.callee(t) or "") == "format" and "fmt" in (mir.callee(t) or ""):
-            # the literal pieces of the Arguments it formats
+        c = mir.callee(t) or ""
+        if hir.last(c) == "format" and "fmt" in c:
             pre = None
             for cb in mir.back_calls(b, defs, t["args"][0][1][0]) if t["args"] and mir.is_place_op(t["args"][0]) else []:
                 ct = b.blocks[cb]["term"]
                 for a in ct["args"]:
-                    c = mir.op_const(a)
-                    text = str(c.get("text", "")) if c is not None else ""
+                    cst = mir.op_const(a)
+                    text = str(cst.get("text", "")) if cst is not None else ""
                     if not text and mir.is_place_op(a):
                         root, _p = mir.origin(b, defs, a[1])
                         text = root[6:] if root.startswith("const:") else ""
                     if text.startswith("b\""):
                         raw = text[2:-1].encode().decode("unicode_escape")
                         pre = fmt_prefix(raw) or pre
-            fmts[bi] = pre
-    stripped = set()
-    for p in F.paths():
-        if p.startswith("codegen::testing::get_tests"):
-            tb = F.body(p)
-            if tb is not None and tb.hir:
-                for c in hir.nodes(tb.hir.get("value") or {}, "mcall"):
-                    if c["m"] in ("strip_prefix", "trim_start_matches") and c["args"]:
-                        a0 = hir.peel_refs(c["args"][0])
-                        if a0.get("k") == "lit" and a0.get("lk") == "str":
-                            stripped.add(a0["v"])
+            out[bi] = pre
+        elif depth < 2 and F.has(c) and not c.startswith("std::") and not c.startswith("core::"):
+            hb = F.body(c)
+            if hb is not None and hb.mir and "String" in hb.mir["locals"][0]["ty"]:
+                hd = mir.Defs(hb)
+                hp = _format_prefixes(F, hb, hd, depth + 1)
+                srcs = [hp[x] for x in mir.back_calls(hb, hd, 0) if x in hp]
+                if hp and srcs and all(x is not None and x == srcs[0] for x in srcs):
+                    out[bi] = srcs[0]
+    return out
+
+
+def lookup_key_prefixes(F, b):
+    """For the lookup `functions.get(key)` in a body: the literal prefix of every definition of the key (None for a definition
+    that is not a formatted string). Returns (list of prefixes, line) or None if there is no such lookup."""
+    defs = mir.Defs(b)
+    gets = [(bi, t) for bi, t in mir.calls(b) if (mir.callee_def(t) or "").endswith("HashMap::<K, V, S, A>::get") and t["args"] and mir.is_place_op(t["args"][0])
+            and "functions" in mir.origin_key(b, defs, t["args"][0][1])]
+    if not gets:
+        return None
+    fmts = _format_prefixes(F, b, defs)
+    res = []
     for gbi, gt in gets:
         key = gt["args"][1] if len(gt["args"]) > 1 else None
         if not mir.is_place_op(key):
-            r.missing("the key of the lookup")
+            res.append(([None], gt.get("line", b.line)))
             continue
-        # the variable behind the key and all of its definitions
         l = key[1][0]
         for _ in range(8):
             ds = defs.whole_defs(l)
@@ -405,13 +550,43 @@ def rule_x5(F):
                 calls_ = set().union(*[mir.back_calls(b, defs, x) for x in mir.rv_locals(d[3]["rv"])]) if mir.rv_locals(d[3]["rv"]) else set()
             pres = [fmts[c] for c in calls_ if c in fmts]
             sources.append(pres[0] if pres else None)
+        res.append((sources, gt.get("line", b.line)))
+    return res
+
+
+def rule_x5(F):
+    """Which function a test case (or `roto run`) calls: the exported symbols are keyed by their full path `pkg.<path>`, test
+    discovery strips that one prefix and hands the rest to Module::get_function, which must put exactly that prefix back - on every
+    path.  (If a name that already starts with `pkg.` is looked up as it is, the tests of a sub-module named `pkg` resolve to the
+    root module's tests of the same name: they are reported under the sub-module's name without ever running.)"""
+    r = RuleResult("C19.X5", "get_function looks every name up under the package prefix that test discovery stripped (the name -> symbol mapping is injective)", floor=1)
+    ps = [p for p in F.paths() if p.endswith("::get_function") and p.startswith("codegen::Module")]
+    if not ps:
+        r.missing("codegen::Module::get_function")
+        return r
+    b = F.body(ps[0])
+    looked = lookup_key_prefixes(F, b)
+    if not looked:
+        r.missing("the lookup in `functions` in Module::get_function")
+        return r
+    stripped = set()
+    for p in F.paths():
+        if p.startswith("codegen::testing::get_tests"):
+            tb = F.body(p)
+            if tb is not None and tb.hir:
+                for c in hir.nodes(tb.hir.get("value") or {}, "mcall"):
+                    if c["m"] in ("strip_prefix", "trim_start_matches") and c["args"]:
+                        a0 = hir.peel_refs(c["args"][0])
+                        if a0.get("k") == "lit" and a0.get("lk") == "str":
+                            stripped.add(a0["v"])
+    for sources, line in looked:
         r.inst("lookup key in get_function", {"definitions_of_the_key": len(sources), "prefixes": sources, "stripped_by_get_tests": sorted(stripped)})
         if not sources or any(x is None for x in sources):
-            r.bad(b.path, "name looked up without the package prefix on some path", relfile(b.file), gt.get("line", b.line),
+            r.bad(b.path, "name looked up without the package prefix on some path", relfile(b.file), line,
                   "on some path the name is looked up in the symbol table as it was given, without the package prefix being prepended: two different names then reach the same symbol "
                   "(`pkg.f` and `f`), and a test of a sub-module called `pkg` resolves to the root module's test of the same name - it is reported as run without running")
         elif stripped and any(x not in stripped for x in sources):
-            r.bad(b.path, "prefix differs from the one test discovery strips", relfile(b.file), gt.get("line", b.line),
+            r.bad(b.path, "prefix differs from the one test discovery strips", relfile(b.file), line,
                   "get_function prepends %s but test discovery strips %s" % (sorted(set(sources)), sorted(stripped)))
     if not stripped:
         r.missing("the prefix stripped by codegen::testing::get_tests")
